@@ -46,7 +46,9 @@ def apply_edit(root, m):
     edits = m.get("edits") or [m]
     for e in edits:
         p = os.path.join(root, e["file"])
-        s = open(p).read()
+        s = open(p, newline="").read()
+        if "\r\n" in s and "\r" not in e["find"]:      # the file uses CRLF line endings
+            e = dict(e, find=e["find"].replace("\n", "\r\n"), replace=e["replace"].replace("\n", "\r\n"))
         n = s.count(e["find"])
         want = e.get("count", 1)
         if n == 0:
@@ -65,7 +67,7 @@ def apply_edit(root, m):
                 s = s[:idx] + e["replace"] + s[idx + len(e["find"]):]
             else:
                 s = s.replace(e["find"], e["replace"])
-        open(p, "w").write(s)
+        open(p, "w", newline="").write(s)
     return None
 
 
